@@ -233,7 +233,10 @@ fn shrink(prop: &str, scenario: &Value, v: &Violation, budget: usize) -> (Value,
             }
             used += 1;
             crate::determinism_seam::reset(0);
-            match cases::replay(prop, &cand) {
+            // a candidate may be an ill-formed scenario (e.g. ids of removed actors): a panic
+            // while replaying it only means "not a valid simplification"
+            let replayed = std::panic::catch_unwind(std::panic::AssertUnwindSafe(|| cases::replay(prop, &cand))).unwrap_or_else(|_| Err("panic".into()));
+            match replayed {
                 Ok(rep) if same_class(&rep, v) => {
                     cur = cand;
                     progress = true;
